@@ -53,3 +53,18 @@ CHECKS["C10"] = dict(
 CHECKS["C14"] = dict(
     text="Every state of a small universe is built along several routes (parsers, copies, successors); == is compared with the reference identity on all ordered pairs x all route pairs, every object is serialized and re-read, every copy is mutated both ways.",
     note=_REF, technique="exhaustive enumeration of all state pairs of a bounded universe x construction routes")
+CHECKS["C12"] = dict(
+    text="Every binary expression tree up to the node bound is evaluated on every valuation of a rational grid, directly and through one-condition / one-effect actions, against exact Fraction arithmetic; comparison truth is checked at 0, 1/2, ~1 and 2 tolerances apart at several magnitudes under three EPSILON configurations and printing under three NUMERIC_PRECISION configurations, each configuration in its own interpreter.",
+    note=_REF + "; configurations are separate subprocesses (pv.c12_worker)", technique="bounded-exhaustive expression x valuation enumeration + exhaustive enumeration of the configuration space")
+CHECKS["C15"] = dict(
+    text="ALL valid sequential plans up to the length bound (BFS over applicable actions, replacing random walks) over three multi-agent mini-domains are converted by the real PlanConverter in two file layouts with and without the concurrency constraint; the joint plan is checked for action preservation, per-agent order, slot layout, member applicability, semantic non-interference and final state under the reference interpreter.",
+    note=_REF + "; one recorded finding (KF-C15-1: interference through atoms is not detected)", technique="exhaustive enumeration of valid operation sequences up to a depth bound, reference-interpreter oracle")
+CHECKS["C16"] = dict(
+    text="Every joint action (one call or nop per agent) x every state of the members' joint relevant universe x every slot permutation is applied by the real apply_actions and compared with sequential reference application (defined only for semantically non-interfering members); refusal and the allow switch on every exactly-one-inapplicable case; exported joint trajectories of all 1-2 step joint plans.",
+    note=_REF, technique="bounded-exhaustive joint-action x state x member-order enumeration, reference-model oracle")
+CHECKS["C17"] = dict(
+    text="All splits of a base domain and problem into overlapping per-agent files x every discovery order (Path.glob seam) x dummy-action switch are combined by the real converters; the combination is compared with the set union, re-exported and re-parsed, and the purity of Domain() defaults and of earlier / later parsed domains is checked after every combination.",
+    note=_REF + "; Path.glob is patched on the harness side to enumerate discovery orders", technique="exhaustive enumeration of file splits x discovery orders (environment-order schedules)")
+CHECKS["C19"] = dict(
+    text="A 145-plan family (step counts at every digit-width boundary x rotations of a (name, arity) alphabet) is rendered as Metric-FF logs under every header x trailer and every layout with <= D deviations, as no-plan logs, and as ENHSP files; status, returned steps and written plan file are compared with the generating plan.",
+    note="trusted: the log generator (the generating plan is the specification) and the comparison code", technique="bounded-exhaustive enumeration of log renderings (deviation-bounded layout space) against a generating-plan oracle")
